@@ -767,6 +767,21 @@ func (e *SpecEnv) call(n *SCall, old bool) Term {
 		}
 		dom, _ := e.tx.mapComps(mt)
 		return Term{S: sand("(not (= "+a[0].S+" 0))", sapp("select", sapp("select", e.tx.h.heapTerm(e.state(old), dom), a[0].S), a[1].S)), Sort: "Bool"}
+	case "allvals_positive":
+		// allvals_positive(m): every value stored in the integer-valued map m is > 0
+		need(1)
+		a := args()
+		mt, ok := mapTypeOf(a[0].GT)
+		if !ok {
+			e.fail("allvals_positive(): argument is not a map")
+		}
+		dom, val := e.tx.mapComps(mt)
+		ks := e.tx.d.sortOf(mt.Key())
+		if e.tx.d.sortOf(mt.Elem()) != "Int" {
+			e.fail("allvals_positive(): map values are not integers")
+		}
+		st := e.state(old)
+		return Term{S: "(forall ((_mk " + ks + ")) (=> " + sapp("select", sapp("select", e.tx.h.heapTerm(st, dom), a[0].S), "_mk") + " (> " + sapp("select", sapp("select", e.tx.h.heapTerm(st, val), a[0].S), "_mk") + " 0)))", Sort: "Bool"}
 	case "callsOn", "lastretOn", "lastargOn":
 		// per-object call trace of a function-valued struct field: callsOn(obj, "field"), lastretOn(obj, "field", k)
 		if len(n.Args) < 2 {
